@@ -90,6 +90,44 @@ def main():
                 ref = (state, split)
             elif state != ref[0]:
                 h.fail('split_independent', dict(wit, reference_split=ref[1]), f'{state} vs {ref[0]}')
+    # ---- end to end: the "(cardinality; coverage)" annotations of a real multi-batch CLI run (coverage = mean of per-batch percentages)
+    import os
+    import re
+    import tempfile
+    import e2e
+    B = 1100
+    cov_plan = {'f1': [1.0, 1.0, 1.0, 0.2], 'f2': [0.5, 0.9, 1.0, 0.8]}
+    rows = []
+    for b in range(4):
+        for i in range(B):
+            r = []
+            for c in ('f1', 'f2'):
+                present = (i / B) < cov_plan[c][b]
+                r.append(f'{c}v{(i + b) % 6}' if present else 'NA')
+            rows.append(r + [str((i + b) % 2)])
+    with tempfile.TemporaryDirectory(dir=os.getcwd()) as d:
+        e2e.write_csv(d, ['f1', 'f2', 'label'], rows)
+        res = e2e.run_cli(d, {'task': 'ranking', 'heuristic': 'MI-numba-randomized', 'minibatch_size': B, 'subsampling': 1, 'num_threads': 1,
+                              'include_cardinality_in_feature_names': 'True', 'missing_value_symbols': 'NA', 'target_ranking_only': 'True'})
+    h.record(('annotations',), True)
+    wit = {'rows': len(rows), 'minibatch_size': B, 'missing_value_symbols': 'NA', 'per_batch_presence': cov_plan}
+    if res['rc'] != 0 or 'pairwise_ranks.tsv' not in res['files']:
+        h.fail('annotations.cli_completes', wit, f"rc={res['rc']} {res['stderr'][-300:]}")
+    else:
+        ann = {}
+        for t in e2e.parse_tsv(res['files']['pairwise_ranks.tsv']):
+            for nm in (t['FeatureA'], t['FeatureB']):
+                m = re.match(r'^(.*)-\((\d+); (-?\d+)\)$', nm)
+                if m:
+                    ann[m.group(1)] = (int(m.group(2)), int(m.group(3)))
+        for ci, c in enumerate(('f1', 'f2')):
+            col = [r[ci] for r in rows]
+            card = len({v for v in col if v})
+            per_batch = [(1 - col[b * B:(b + 1) * B].count('NA') / B) * 100 for b in range(4)]
+            cov = int(round(float(np.mean(per_batch)), 1))
+            if ann.get(c) != (card, cov):
+                h.fail('annotations.cardinality_and_mean_coverage', dict(wit, feature=c), f'annotated {ann.get(c)}, exact (cardinality; mean of per-batch coverage) = {(card, cov)}')
+    h.bounded_note('"(cardinality; coverage)" annotations of a real 4-batch CLI run with unequal per-batch coverage', '1 run', 1)
     h.bounded_note('coverage / cardinality / repetition counter / rare-value store vs exact recomputation, and equality across '
                    'every composition of the row count (bounds 2, 3 and 30000 for the repetition counter)',
                    f'{n_cases} row sequences of 2..10 rows x all (or 200 sampled) compositions', h.evaluations)
